@@ -433,7 +433,8 @@ Inductive stage :=
 | SZipLongest (ls : list (list val)) (fill : option val)
 | SListOf (vs : list val)
 | SMergeWithX (d : kvs) (lm im : option lam2) (maxl : Z)
-| SSelf (op : selfop).
+| SSelf (op : selfop)
+| SGroupByAggP (k : lam) (v : option lam) (agg : list stage) (term : nat).   (* aggregator: $ + pipeline + len / sum(0) / first(null) / toList *)
 
 (* yaqltypes.Iterable(): tuples, lists, sets, iterators, OrderingIterable; not dicts *)
 Definition as_it (r : rv) : option it :=
@@ -471,42 +472,108 @@ Fixpoint dict_from_items (acc : kvs) (l : list val) : res kvs :=
   | [] => Ok acc
   | VList _ (k :: v :: _) :: r => if hashable k then dict_from_items (dict_set_l k v acc) r else Err EType
   | VList _ _ :: _ => Err EStop
+  | VDict _ ((k, _) :: (v, _) :: _) :: r =>         (* iterating a mapping gives its keys *)
+      if hashable k then dict_from_items (dict_set_l k v acc) r else Err EType
+  | VDict _ _ :: _ => Err EStop
+  | VStr (c1 :: c2 :: _) :: r => dict_from_items (dict_set_l (VStr [c1]) (VStr [c2]) acc) r      (* ... a string its characters *)
+  | VStr _ :: _ => Err EStop
   | _ :: _ => Err EType
   end.
 
-(* _merge_dicts restricted to integer / tuple values (maxLevels 0, default mergers) *)
+(* _merge_dicts: for every key of the left dict that the right one has too - nested dicts are merged recursively
+   (maxLevels counts the levels still to descend, 0 = no bound, 1 = stop), sequences by the list merger
+   (default: distinct of the concatenation), everything else by the item merger (default: the right value);
+   then the keys only the right dict has.  The result, and every merged sub-dict, is a plain dict. *)
 Definition is_seq (v : val) : bool := match v with VList _ _ => true | _ => false end.
-Fixpoint merge_first (d1 d2 : kvs) : res kvs :=
-  match d1 with
-  | [] => Ok []
-  | (k, v1) :: r =>
-      match merge_first r d2 with
-      | Ok rest =>
-          match dict_get_l k d2 with
-          | Some v2 =>
-              match v2 with
-              | VList false l2 =>
-                  match v1 with
-                  | VList false l1 =>
-                      if forallb hashable (l1 ++ l2)
-                      then Ok ((k, VList false (distinct_l val_eqb (fun x => x) (l1 ++ l2))) :: rest)
-                      else Err EType
-                  | VList true _ => Unsupported
-                  | _ => Err EType
-                  end
-              | VList true _ => Unsupported
-              | _ => Ok ((k, v2) :: rest)
-              end
-          | None => Ok ((k, v1) :: rest)
-          end
+Fixpoint merge_dicts (fuel : nat) (d1 d2 : kvs) (lm im : option lam2) (maxl : Z) : res kvs :=
+  match fuel with
+  | O => Unsupported
+  | S fu =>
+      let item v1 v2 := match im with Some g => apply2 g v1 v2 | None => v2 end in
+      let first :=
+        (fix go (l : kvs) : res kvs :=
+           match l with
+           | [] => Ok []
+           | (k, v1) :: r =>
+               match go r with
+               | Ok rest =>
+                   match dict_get_l k d2 with
+                   | None => Ok ((k, v1) :: rest)
+                   | Some v2 =>
+                       if Z.eqb maxl 1 then Ok ((k, item v1 v2) :: rest)
+                       else match v2 with
+                            | VDict _ e2 =>
+                                match v1 with
+                                | VDict _ e1 =>
+                                    match merge_dicts fu e1 e2 lm im (if Z.eqb maxl 0 then 0%Z else (maxl - 1)%Z) with
+                                    | Ok m => Ok ((k, VDict true m) :: rest)
+                                    | e => e
+                                    end
+                                | _ => Err EType
+                                end
+                            | VList m2 l2 =>
+                                match v1 with
+                                | VList m1 l1 =>
+                                    match lm with
+                                    | Some g => Ok ((k, apply2 g v1 v2) :: rest)
+                                    | None => if m1 || m2 then Unsupported
+                                              else if forallb hashable (l1 ++ l2)
+                                                   then Ok ((k, VList false (distinct_l val_eqb (fun x => x) (l1 ++ l2))) :: rest)
+                                                   else Err EType
+                                    end
+                                | _ => Err EType
+                                end
+                            | _ => Ok ((k, item v1 v2) :: rest)
+                            end
+                   end
+               | e => e
+               end
+           end) d1 in
+      match first with
+      | Ok r => Ok (r ++ filter (fun kv => match dict_get_l (fst kv) r with Some _ => false | None => true end) d2)
       | e => e
       end
   end.
-Definition merge_with_l (d1 d2 : kvs) : res kvs :=
-  match merge_first d1 d2 with
-  | Ok r => Ok (r ++ filter (fun kv => match dict_get_l (fst kv) r with Some _ => false | None => true end) d2)
-  | e => e
+
+(* ---- the pure list reading of a stage (for pipelines of list -> list operators) ---- *)
+Definition stage_list (sg : stage) (l : list val) : option (list val) :=
+  let tr p := fun x => truthy (apply p x) in
+  match sg with
+  | SWhere p => Some (where_l (tr p) l)
+  | SSelect f => Some (select_l (apply f) l)
+  | SSkip n => if Z.ltb n 0 then None else Some (skip_l (Z.to_nat n) l)
+  | STake n => if Z.ltb n 0 then None else Some (take_l (Z.to_nat n) l)
+  | STakeWhile p => Some (take_while_l (tr p) l)
+  | SSkipWhile p => Some (skip_while_l (tr p) l)
+  | SAppend vs => Some (l ++ vs)
+  | SConcat ls => Some (l ++ concat ls)
+  | SDistinct k => if forallb (fun x => hashable (match k with Some g => apply g x | None => x end)) l
+                   then Some (distinct_l val_eqb (fun x => match k with Some g => apply g x | None => x end) l) else None
+  | SEnumerate n => Some (map (fun p => VList true [VInt (fst p); snd p])
+                              (enumerate_l (match n with Some z => z | None => 0%Z end) l))
+  | SInsertMany pos vs => Some (insert_many_l l pos vs)
+  | SDelete pos cnt => Some (delete_l l pos (match cnt with Some c => c | None => 1%Z end))
+  | SReplace pos v cnt => Some (replace_l l pos v (match cnt with Some c => c | None => 1%Z end))
+  | SReplaceMany pos vs cnt => Some (replace_many_l l pos vs (match cnt with Some c => c | None => 1%Z end))
+  | SSlice n => if Z.leb n 0 then None else Some (map (VList false) (chunks_l (Z.to_nat n) l))
+  | SMemorize => Some l
+  | SReverse => Some (rev l)
+  | SOrderBy f asc => Some (order_by_l [(f, asc)] l)
+  | SSplitWhere p => Some (map (VList false) (split_where_l (tr p) l))
+  | SSliceWhere p => Some (map (VList false) (slice_where_l val_eqb (apply p) l))
+  | SSelectMany f => Some (flat_map (fun x => match apply f x with VList _ e => e | v => [v] end) l)
+  | SAccumulate f (Some sd) => Some (accumulate_seed (apply2 f) sd l)
+  | SAccumulate f None => accumulate_l (apply2 f) l
+  | SZip [l2] => Some (map (fun p => VList false [fst p; snd p]) (zip_l l l2))
+  | _ => None
   end.
+
+Fixpoint stages_list (sgs : list stage) (l : list val) : option (list val) :=
+  match sgs with
+  | [] => Some l
+  | sg :: r => match stage_list sg l with Some l' => stages_list r l' | None => None end
+  end.
+
 
 Definition opt_lam_apply (s : st) (f : option lam) (v : val) : st * val :=
   match f with Some g => (tick s, apply g v) | None => (s, v) end.
@@ -716,7 +783,7 @@ Definition apply_stage (fuel : nat) (s : st) (sg : stage) (r : rv) : rr :=
       match r with RDict _ d => (s, Ok (RDict false (dict_update_l d (dict_of_items e)))) | _ => no_match s end
   | SMergeWith e =>
       match r with
-      | RDict _ d => match merge_with_l d (dict_of_items e) with
+      | RDict _ d => match merge_dicts 6 d (dict_of_items e) None None 0 with
                      | Ok x => (s, Ok (RDict true x)) | Err er => (s, Err er) | _ => (s, Unsupported) end
       | _ => no_match s
       end
@@ -806,31 +873,27 @@ Definition apply_stage (fuel : nat) (s : st) (sg : stage) (r : rv) : rr :=
       end
   | SMergeWithX e lm im maxl =>
       match r with
-      | RDict _ d =>
-          let e' := dict_of_items e in
-          let item v1 v2 := match im with Some g => apply2 g v1 v2 | None => v2 end in
-          let merged :=
-            map (fun kv =>
-                   match dict_get_l (fst kv) e' with
-                   | Some v2 =>
-                       if negb (Z.eqb maxl 1) && is_seq v2 then
-                         (fst kv, match lm with
-                                  | Some g => apply2 g (snd kv) v2
-                                  | None => match snd kv, v2 with
-                                            | VList false l1, VList false l2 => VList false (distinct_l val_eqb (fun x => x) (l1 ++ l2))
-                                            | _, _ => VNull
-                                            end
-                                  end)
-                       else (fst kv, item (snd kv) v2)
-                   | None => kv
-                   end) d in
-          if existsb (fun kv => match dict_get_l (fst kv) e' with
-                                | Some v2 => negb (Z.eqb maxl 1) && is_seq v2 && negb (is_seq (snd kv))
-                                | None => false end) d
-          then (s, Err EType)
-          else (s, Ok (RDict true (merged ++ filter (fun kv => match dict_get_l (fst kv) d with Some _ => false | None => true end) e')))
+      | RDict _ d => match merge_dicts 6 d (dict_of_items e) lm im maxl with
+                     | Ok x => (s, Ok (RDict true x)) | Err er => (s, Err er) | _ => (s, Unsupported) end
       | _ => no_match s
       end
+  | SGroupByAggP k v sgs term =>
+      with_list fuel s r (fun s1 l =>
+        if forallb (fun x => hashable (apply k x)) l then
+          let groups := group_by_l val_eqb (apply k) (fun x => match v with Some g => apply g x | None => x end) l in
+          let agg vals := match stages_list sgs vals with
+                          | Some out => Some (match term with
+                                              | 0 => VInt (Z.of_nat (length out))
+                                              | 1 => aggregate_seed (apply2 L2Add) (VInt 0) out
+                                              | 2 => match out with [] => VNull | x :: _ => x end
+                                              | _ => VList false out
+                                              end)
+                          | None => None
+                          end in
+          if forallb (fun g => match agg (snd g) with Some _ => true | None => false end) groups
+          then ok_it s1 (OfList (map (fun g => pair_val (fst g) (match agg (snd g) with Some a => a | None => VNull end)) groups))
+          else (s1, Unsupported)
+        else (s1, Err EType))
   | SSelf op =>
       with_list fuel s r (fun s1 l =>
         let agg a := match a with
@@ -896,7 +959,11 @@ Definition source_rv (src : source) : res rv :=
 
 (* ---- finalisation (convert_output_data) and observations --------------------------- *)
 Fixpoint erase (v : val) : val :=
-  match v with VList _ l => VList false (map erase l) | x => x end.
+  match v with
+  | VList _ l => VList false (map erase l)
+  | VDict _ d => VDict false (map (fun kv => (erase (fst kv), erase (snd kv))) d)
+  | x => x
+  end.
 
 Inductive obs :=
 | OVal (v : val)
@@ -906,12 +973,15 @@ Inductive obs :=
 | OCap                      (* observation only: the pull cap of the instrumented source tripped *)
 | ONone.                    (* model out of fuel / unsupported: never equal to anything *)
 
+(* tuples and frozen dicts become lists and dicts on the way out: not hashable any more (F8) *)
+Definition unhashable_out (v : val) : bool := match v with VList _ _ | VDict _ _ => true | _ => false end.
+
 Definition finalize (fuel : nat) (s : st) (r : rv) : st * obs :=
   match r with
   | RVal v => (s, OVal (erase v))
-  | RDict _ d => if existsb (fun kv => is_seq (fst kv)) d then (s, OErr EType)
+  | RDict _ d => if existsb (fun kv => unhashable_out (fst kv)) d then (s, OErr EType)
                  else (s, ODict (map (fun kv => (erase (fst kv), erase (snd kv))) d))
-  | RSet l => if existsb is_seq l then (s, OErr EType) else (s, OSet (map erase l))
+  | RSet l => if existsb unhashable_out l then (s, OErr EType) else (s, OSet (map erase l))
   | _ =>
       match as_it r with
       | Some i => match drain fuel s i with
@@ -946,47 +1016,9 @@ Definition obs_eqb (model observed : obs) : bool :=
   | OVal a, OVal b => val_obs_eqb a b
   | OSet a, OSet b => Nat.eqb (length a) (length b) && forallb (fun x => vmem_obs x b) a && forallb (fun x => vmem_obs x a) b
   | ODict a, ODict b => Nat.eqb (length a) (length b) && forallb (fun x => kv_mem_obs x b) a
+  | OVal (VDict _ a), ODict b => Nat.eqb (length a) (length b) && forallb (fun x => kv_mem_obs x b) a   (* a record as the whole result *)
   | OErr a, OErr b => err_eqb a b
   | _, _ => false
-  end.
-
-(* ---- the pure list reading of a stage (for pipelines of list -> list operators) ---- *)
-Definition stage_list (sg : stage) (l : list val) : option (list val) :=
-  let tr p := fun x => truthy (apply p x) in
-  match sg with
-  | SWhere p => Some (where_l (tr p) l)
-  | SSelect f => Some (select_l (apply f) l)
-  | SSkip n => if Z.ltb n 0 then None else Some (skip_l (Z.to_nat n) l)
-  | STake n => if Z.ltb n 0 then None else Some (take_l (Z.to_nat n) l)
-  | STakeWhile p => Some (take_while_l (tr p) l)
-  | SSkipWhile p => Some (skip_while_l (tr p) l)
-  | SAppend vs => Some (l ++ vs)
-  | SConcat ls => Some (l ++ concat ls)
-  | SDistinct k => if forallb (fun x => hashable (match k with Some g => apply g x | None => x end)) l
-                   then Some (distinct_l val_eqb (fun x => match k with Some g => apply g x | None => x end) l) else None
-  | SEnumerate n => Some (map (fun p => VList true [VInt (fst p); snd p])
-                              (enumerate_l (match n with Some z => z | None => 0%Z end) l))
-  | SInsertMany pos vs => Some (insert_many_l l pos vs)
-  | SDelete pos cnt => Some (delete_l l pos (match cnt with Some c => c | None => 1%Z end))
-  | SReplace pos v cnt => Some (replace_l l pos v (match cnt with Some c => c | None => 1%Z end))
-  | SReplaceMany pos vs cnt => Some (replace_many_l l pos vs (match cnt with Some c => c | None => 1%Z end))
-  | SSlice n => if Z.leb n 0 then None else Some (map (VList false) (chunks_l (Z.to_nat n) l))
-  | SMemorize => Some l
-  | SReverse => Some (rev l)
-  | SOrderBy f asc => Some (order_by_l [(f, asc)] l)
-  | SSplitWhere p => Some (map (VList false) (split_where_l (tr p) l))
-  | SSliceWhere p => Some (map (VList false) (slice_where_l val_eqb (apply p) l))
-  | SSelectMany f => Some (flat_map (fun x => match apply f x with VList _ e => e | v => [v] end) l)
-  | SAccumulate f (Some sd) => Some (accumulate_seed (apply2 f) sd l)
-  | SAccumulate f None => accumulate_l (apply2 f) l
-  | SZip [l2] => Some (map (fun p => VList false [fst p; snd p]) (zip_l l l2))
-  | _ => None
-  end.
-
-Fixpoint stages_list (sgs : list stage) (l : list val) : option (list val) :=
-  match sgs with
-  | [] => Some l
-  | sg :: r => match stage_list sg l with Some l' => stages_list r l' | None => None end
   end.
 
 Definition source_list (src : source) : option (list val) :=
